@@ -141,8 +141,14 @@ impl PairCfg {
             "liteA" => c.enable_ice_lite = side == "A",
             "liteB" => c.enable_ice_lite = side == "B",
             "tcp" => {
+                // RFC 6544 as the library's own end-to-end test sets it up: no UDP host candidates,
+                // the answerer (controlled) listens on a TCP port range, the offerer connects actively
                 c.ice_tcp_policy = IceTcpPolicy::Enabled;
                 c.ice_gather_udp_hosts = false;
+                if side != self.offerer {
+                    c.tcp_port_range_start = Some(mux_port);
+                    c.tcp_port_range_end = Some(mux_port.saturating_add(8));
+                }
             }
             "udpmux" => {
                 // the answerer side plays the single-port server
@@ -498,6 +504,13 @@ pub fn free_udp_port() -> u16 {
         .unwrap_or(40000)
 }
 
+pub fn free_tcp_port() -> u16 {
+    std::net::TcpListener::bind("127.0.0.1:0")
+        .and_then(|s| s.local_addr())
+        .map(|a| a.port().min(65000))
+        .unwrap_or(41000)
+}
+
 impl Pair {
     pub fn new(cfg: &PairCfg) -> Self {
         Self::new_with(cfg, true, true)
@@ -506,7 +519,11 @@ impl Pair {
     /// `pump_x = false`: no event pump on that side (the pump holds a clone of the handle, which
     /// would defeat a scenario in which the application drops the connection).
     pub fn new_with(cfg: &PairCfg, pump_a: bool, pump_b: bool) -> Self {
-        let mux_port = if cfg.ice == "udpmux" { free_udp_port() } else { 0 };
+        let mux_port = match cfg.ice.as_str() {
+            "udpmux" => free_udp_port(),
+            "tcp" => free_tcp_port(),
+            _ => 0,
+        };
         let a = Arc::new(Side::new("A", cfg, mux_port));
         let b = Arc::new(Side::new("B", cfg, mux_port));
         if pump_a {
